@@ -11,6 +11,7 @@ package main
 
 import (
 	"bytes"
+	"context"
 	"encoding/binary"
 	"flag"
 	"fmt"
@@ -56,7 +57,11 @@ func hostileInput(s *session, rng *rand.Rand) (string, []byte) {
 		h.Timestamp = ts
 		return h
 	}
-	switch k := rng.Intn(22); k {
+	k := rng.Intn(22)
+	if s.wanted != nil && rng.Intn(2) == 0 {
+		k = 12
+	}
+	switch k {
 	case 0:
 		b := make([]byte, 1+rng.Intn(200))
 		rng.Read(b)
@@ -118,7 +123,11 @@ func hostileInput(s *session, rng *rand.Rand) (string, []byte) {
 	case 12:
 		// block with hostile tx count
 		var p bytes.Buffer
-		s.fabHeader(s.tip).Serialize(&p)
+		if s.wanted != nil && rng.Intn(3) != 0 {
+			p.Write(s.wanted[:80]) // the header of the block the node asked for
+		} else {
+			s.fabHeader(s.tip).Serialize(&p)
+		}
 		putVarInt(&p, pickU())
 		p.Write(make([]byte, rng.Intn(40)))
 		if rng.Intn(2) == 0 {
@@ -257,7 +266,12 @@ func hostileMain(args []string) int {
 			var hdr wire.BlockHeader
 			hdr.Deserialize(bytes.NewReader(blk[:80]))
 			s.wanted = blk
-			s.node.RequestBlock(s.ctx, *hdr.BlockHash(), nil, nil)
+			s.node.RequestBlock(s.ctx, *hdr.BlockHash(),
+				func(ctx context.Context, h *wire.BlockHeader, n uint64, ch <-chan *wire.MsgTx) error {
+					for range ch {
+					}
+					return nil
+				}, func(context.Context) {})
 		}
 		// one to three hostile inputs
 		nin := 1 + rng.Intn(3)
